@@ -317,7 +317,7 @@ where
         hint(&it, pos, &format!("after step {}", k))?;
     }
     cx.nontrivial(total >= 2 && skipped);
-    Ok(())
+    crate::gen::iterator_protocol(&|| RawDataSlice::<R, O>::new(&data).into_iter(), d, "iterator")
 }
 
 fn iterator_scripts(d: &mut Dec, cx: &mut Cx) -> Res {
